@@ -140,6 +140,7 @@ def transposeIndexRule : BRule where
             let axes := indexedAxes p.idx
             if axes.length > 1 then .ok none
             else if p.flag then .ok none
+            else if ((p.inS.leaves.map (·.dtype)).eraseDups).length > 1 then .ok none
             else
               let shapes := (p.inS.leaves.map (·.shape)).eraseDups
               if shapes.length > 1 then .ok none
